@@ -102,7 +102,7 @@ func creationGuarded(w *World) func(ssa.Instruction) bool {
 		fn := in.Parent()
 		for _, s := range ei.sitesWith(fn, eff("Get", nsChainKey)) {
 			v := errVerdict(s.Instr)
-			if v == nil {
+			if v == nil || !s.pureLookup() {
 				continue
 			}
 			for _, e := range edgesOfVerdict(v).Reject {
